@@ -149,6 +149,29 @@ fn selftest(cfg: &Config, script: &[Step], obs: &run::Obs, out: &mut CaseOut) {
             mutations.push(("unlinked-removed", "unlinked-missing/", o));
         }
     }
+    // the link closed before the end action (`faults-*` parts): a served consumer is not told
+    // `unlinked`; the runtime keeps running although the link provably closed
+    if !obs.runtime_alive_at_q && obs.runtime_panic.is_none() {
+        let told = (0..obs.cons.len()).find(|c| {
+            let co = &obs.cons[*c];
+            co.attach_accepted
+                && co.frames_at_q >= 2
+                && co.frames_at_q == co.frames.len()
+                && co.frames.last().map_or(false, |f| f.1 == Note::Unlinked)
+                && matches!(co.end, Some(peers::ReaderEnd::Closed(t)) if t < obs.q)
+        });
+        if let Some(c) = told {
+            let mut o = obs.clone();
+            o.cons[c].frames.pop();
+            o.cons[c].frames_at_q -= 1;
+            mutations.push(("unlinked-removed-after-early-close", "unlinked-missing/", o));
+        }
+        if obs.lane.writer_closed.is_some() {
+            let mut o = obs.clone();
+            o.runtime_alive_at_q = true;
+            mutations.push(("runtime-kept-running-after-input-closed", "runtime-not-stopped/", o));
+        }
+    }
     // socket side
     let cmd_idx: Vec<usize> = obs.lane.reqs.iter().enumerate().filter(|(_, r)| matches!(r.1, Req::Cmd(_))).map(|(i, _)| i).collect();
     if settled && cfg.kind == LaneKind::Value {
